@@ -3,10 +3,10 @@ package main
 import "fmt"
 
 // number of templates in harness/commonmark/h_tl.go
-const nTL = 95
+const nTL = 112
 
 // quick-tier subset of TL (at most two holes, cheap)
-var tlQuick = []int{0, 1, 2, 3, 5, 6, 7, 8, 9, 10, 11, 12, 13, 14, 15, 16, 17, 18, 19, 20, 22, 23, 24, 25, 27, 28, 29, 30, 32, 33, 34, 35, 39, 40, 44, 48, 49, 53, 54, 59, 60, 61, 62, 63, 64, 65, 66, 67, 68, 69, 70, 71, 72, 73, 74, 75, 76, 77, 78, 79, 80, 81, 82, 83, 84, 85, 86, 87, 88, 89, 90, 91, 92, 93, 94}
+var tlQuick = []int{0, 1, 2, 3, 5, 6, 7, 8, 9, 10, 11, 12, 13, 14, 15, 16, 17, 18, 19, 20, 22, 23, 24, 25, 27, 28, 29, 30, 32, 33, 34, 35, 39, 40, 44, 48, 49, 53, 54, 59, 60, 61, 62, 63, 64, 65, 66, 67, 68, 69, 70, 71, 72, 73, 74, 75, 76, 77, 78, 79, 80, 81, 82, 83, 84, 85, 86, 87, 88, 89, 90, 91, 92, 93, 94, 95, 96, 97, 98, 99, 100, 101, 102, 103, 104, 105, 106, 107, 108, 109, 110, 111}
 
 func fJobs(h string, quickN []int, thoroughN []int, second int64, clausePanic string) []JobSpec {
 	var js []JobSpec
@@ -37,14 +37,14 @@ func tlJobs(h string) []JobSpec {
 
 // multi-line members of TL that are also run with CRLF (quick) and bare-CR (thorough)
 // line endings (template kinds 6 and 7 of treeInput)
-var tlMultiLine = []int{9, 10, 13, 14, 20, 29, 33, 34, 39, 40, 44, 53, 59, 60, 61, 62, 63, 64, 68, 70, 73, 75, 81, 87, 88, 89, 94}
+var tlMultiLine = []int{9, 10, 13, 14, 20, 29, 33, 34, 39, 40, 44, 53, 59, 60, 61, 62, 63, 64, 68, 70, 73, 75, 81, 87, 88, 89, 94, 96, 97, 98, 100, 102, 103, 104, 105, 108, 109, 111}
 
 func tlEOLJobs(h string) []JobSpec {
 	var js []JobSpec
 	for _, i := range tlMultiLine {
 		js = append(js, JobSpec{Pkg: pkgCM, Harness: h, Params: []int64{6, int64(i)}, Bound: fmt.Sprintf("TL[%d] with CRLF line endings", i), Tier: "quick"})
 		crTier := "thorough"
-		if i == 14 || i == 20 || i == 29 || i == 53 || i == 81 || i == 87 {
+		if i == 14 || i == 20 || i == 29 || i == 53 || i == 81 || i == 87 || i == 102 || i == 104 || i == 105 {
 			crTier = "quick"
 		}
 		js = append(js, JobSpec{Pkg: pkgCM, Harness: h, Params: []int64{7, int64(i)}, Bound: fmt.Sprintf("TL[%d] with bare-CR line endings", i), Tier: crTier})
@@ -219,6 +219,9 @@ func propSpecs() map[string]*PropSpec {
 		}
 		c07.Jobs = append(c07.Jobs, JobSpec{Pkg: pkgCM, Harness: "H_C07", Params: []int64{int64(2000 + i), 0}, Bound: fmt.Sprintf("attribute-emission template %d", i), Tier: t})
 	}
+	for i, nm := range []string{"fenced code block of 300 lines", "bullet list of 300 items", "paragraph of 200 lines", "70 nested block quotes", "fenced code block of 70 lines", "bullet list of 66 items", "paragraph of 40 lines"} {
+		c07.Jobs = append(c07.Jobs, JobSpec{Pkg: pkgCM, Harness: "H_C07", Params: []int64{int64(3000 + i), 0}, Bound: "wide / deep document around one free byte: " + nm, Tier: "quick"})
+	}
 	for _, i := range tlQuick {
 		c07.Jobs = append(c07.Jobs, JobSpec{Pkg: pkgCM, Harness: "H_C07", Params: []int64{int64(1000 + i), 0}, Bound: fmt.Sprintf("TL[%d]", i), Tier: "thorough"})
 	}
@@ -252,6 +255,12 @@ func propSpecs() map[string]*PropSpec {
 			}
 			c10.Jobs = append(c10.Jobs, JobSpec{Pkg: pkgCM, Harness: "H_C10", Params: []int64{2000 + i, f}, Bound: fmt.Sprintf("raw-HTML template %d, FilterTag=%s", i, fnames[f]), Tier: "quick"})
 		}
+	}
+	for i, nm := range []string{"fenced code block of 300 lines", "bullet list of 300 items", "paragraph of 200 lines", "70 nested block quotes"} {
+		c10.Jobs = append(c10.Jobs, JobSpec{Pkg: pkgCM, Harness: "H_C10", Params: []int64{int64(3000 + i), 0}, Bound: "wide / deep document around one free byte: " + nm + ", FilterTag=nil", Tier: "quick"})
+	}
+	for _, f := range []int64{0, 1, 2, 5} {
+		c10.Jobs = append(c10.Jobs, JobSpec{Pkg: pkgCM, Harness: "H_C10_reuse", Params: []int64{f, 0}, Bound: fmt.Sprintf("one renderer value reused for four renders with its fields changed in between (same label, different destinations; FilterTag=%s for the later calls)", fnames[f]), Tier: "quick"})
 	}
 	c10.Jobs = append(c10.Jobs, JobSpec{Pkg: pkgCM, Harness: "H_C10_join", Params: []int64{100, 0}, Bound: "block-join rule on 100 paragraphs (6.4 KB of output, crosses 4 KiB)", Tier: "quick"})
 	c10.Jobs = append(c10.Jobs, JobSpec{Pkg: pkgCM, Harness: "H_C10_join", Params: []int64{300, 0}, Bound: "block-join rule on 300 paragraphs (19 KB of output)", Tier: "thorough"})
@@ -362,6 +371,14 @@ func propSpecs() map[string]*PropSpec {
 		}
 		cm(c14, "H_C14_eol", 4, i, fmt.Sprintf("line-ending clause, C14 template %d", i), "quick")
 	}
+	for _, i := range tlMultiLine {
+		cm(c14, "H_C14_eol", 1, int64(i), fmt.Sprintf("line-ending clause, TL[%d]", i), "quick")
+	}
+	for _, i := range []int64{0, 5, 7, 8, 18, 22, 26, 30, 32, 35, 37, 43, 45, 48, 49, 54, 70, 86, 104, 105, 106, 107, 108, 109, 110} {
+		cm(c14, "H_C14_final", 1, i, fmt.Sprintf("final-newline clause, TL[%d]", i), "quick")
+	}
+	cm(c14, "H_C14_final", 1, 21, "final-newline clause, TL[21]", "thorough")
+	cm(c14, "H_C14_final", 1, 41, "final-newline clause, TL[41]", "thorough")
 	for n := int64(1); n <= 2; n++ {
 		cm(c14, "H_C14_eol_stream", 0, n, fmt.Sprintf("line-ending clause through the streaming parser, F(%d), input cut into two reads at every position", n), "quick")
 	}
@@ -394,6 +411,19 @@ func propSpecs() map[string]*PropSpec {
 	}
 	for _, i := range []int64{9, 20, 33, 39, 59, 83, 87, 89} {
 		cm(c09, "H_C09_list", 1, i, fmt.Sprintf("list clause, multi-line template TL[%d]", i), "quick")
+	}
+	for _, i := range []int64{97, 98, 102, 108, 109, 110, 111} {
+		cm(c09, "H_C09_quote", 1, i, fmt.Sprintf("quote clause, template TL[%d]", i), "quick")
+	}
+	for _, i := range []int64{108, 109, 110} {
+		cm(c09, "H_C09_quote_bare", 1, i, fmt.Sprintf("quote clause with the bare marker '>', TL[%d] (whitespace-only line inside code)", i), "quick")
+	}
+	for _, i := range []int64{9, 13, 14, 20, 84, 88, 89, 108} {
+		cm(c09, "H_C09_quote", 6, i, fmt.Sprintf("quote clause, TL[%d] with CRLF line endings", i), "quick")
+		cm(c09, "H_C09_quote", 7, i, fmt.Sprintf("quote clause, TL[%d] with bare-CR line endings", i), "quick")
+	}
+	for _, i := range []int64{13, 84, 9} {
+		cm(c09, "H_C09_list", 7, i, fmt.Sprintf("list clause, TL[%d] with bare-CR line endings", i), "quick")
 	}
 	cm(c09, "H_C09_quote", 8, 10, "quote clause, definition + full reference with a 10-line label of 989 characters (below the 999 limit)", "quick")
 	cm(c09, "H_C09_list", 8, 10, "list clause, the same document x 6 markers x 4 widths", "quick")
@@ -443,7 +473,7 @@ func propSpecs() map[string]*PropSpec {
 	c12 := &PropSpec{ID: "C12", Level: "model_checking", Assumptions: append([]string{"label alphabet {a, A, s, k, U+00DF, U+1E9E, U+212A, space, tab, LF, U+00A0, escaped ]} with case folding written out from CaseFolding.txt; case folding of other code points is trusted to golang.org/x/text", "at most one line ending per label (two could form a blank line)"}, commonAssumptions...), QuickSec: 170, ThoroughSec: 900,
 		Explanation: "bounded symbolic execution of Parse on use/definition documents whose labels are solver-chosen unit sequences; resolves <=> reference-normalised labels equal; first-definition-wins over all orders and container placements; closure clauses (link keys in map, keys normalised, map equals fresh Extract) on F(n) and link templates"}
 	for _, k := range [][2]int64{{1, 1}, {2, 1}, {1, 2}, {2, 2}} {
-		cm(c12, "H_C12_norm", k[0], k[1], fmt.Sprintf("labels of %d and %d units over a 12-member alphabet", k[0], k[1]), "quick")
+		cm(c12, "H_C12_norm", k[0], k[1], fmt.Sprintf("labels of %d and %d units over a 13-member alphabet x 4 reference forms (shortcut, collapsed, full, full image)", k[0], k[1]), "quick")
 	}
 	cm(c12, "H_C12_norm", 3, 2, "labels of 3 and 2 units", "thorough")
 	cm(c12, "H_C12_norm", 2, 3, "labels of 2 and 3 units", "thorough")
@@ -456,6 +486,9 @@ func propSpecs() map[string]*PropSpec {
 	for f, nm := range []string{"full reference", "image reference", "definition"} {
 		cm(c12, "H_C12_multiline", int64(f), 0, nm+" whose label continues on the next line inside a block quote / list item (4 container spellings, letters free)", "quick")
 	}
+	for e, nm := range []string{"LF", "CRLF", "bare CR"} {
+		cm(c12, "H_C12_adjacent", int64(e), 0, "two definitions on adjacent lines of one paragraph ("+nm+"), optional block quote / title / trailing text line, competing or distinct labels", "quick")
+	}
 	for n := int64(1); n <= 3; n++ {
 		cm(c12, "H_C12_closure", 0, n, fmt.Sprintf("closure clauses on F(%d)", n), "quick")
 	}
@@ -463,7 +496,7 @@ func propSpecs() map[string]*PropSpec {
 	cm(c12, "H_C12_nul", 4, 0, "labels of 4 units over {NUL, a, A, space} on both sides", "thorough")
 	cm(c12, "H_C12_long", 200, 0, "label of 200 x U+0390 + a free letter (400 bytes as written, 1 200 bytes after case folding)", "quick")
 	cm(c12, "H_C12_long", 480, 0, "label of 480 x U+0390 + a free letter (961 characters as written)", "thorough")
-	for _, i := range []int64{5, 6, 8, 10, 11, 12, 13, 14, 15, 83, 84, 85, 89, 93} {
+	for _, i := range []int64{5, 6, 8, 10, 11, 12, 13, 14, 15, 83, 84, 85, 89, 93, 95, 96} {
 		cm(c12, "H_C12_closure", 1, i, fmt.Sprintf("closure clauses on TL[%d]", i), "quick")
 	}
 	cm(c12, "H_C12_closure", 1, 42, "closure clauses on TL[42]", "thorough")
@@ -487,6 +520,10 @@ func propSpecs() map[string]*PropSpec {
 	cm(c18, "H_C18", 2, 53, "virtual trees of depth 3 with <= 5 nodes, all shapes and policies", "quick")
 	cm(c18, "H_C18", 3, 66, "wide real tree: a list of 66 items (265 nodes, Walk's stack grows past 64 frames); one callback at a solver-chosen position returns false", "quick")
 	cm(c18, "H_C18", 4, 70, "deep real tree: 70 nested block quotes; one callback at a solver-chosen position returns false", "quick")
+	cm(c18, "H_C18", 7, 300, "wide real tree: a list of 300 items (1 201 nodes; past 256 and 1 024 stack frames), the false-returning callback from a menu of 8 positions", "quick")
+	cm(c18, "H_C18", 7, 700, "wide real tree: a list of 700 items, menu of 8 positions", "quick")
+	cm(c18, "H_C18", 8, 140, "deep real tree: 140 nested block quotes, menu of 8 positions", "quick")
+	cm(c18, "H_C18", 8, 300, "deep real tree: 300 nested block quotes, menu of 8 positions", "quick")
 	cm(c18, "H_C18", 3, 140, "wide real tree: a list of 140 items", "thorough")
 	cm(c18, "H_C18", 3, 300, "wide real tree: a list of 300 items", "thorough")
 	cm(c18, "H_C18", 2, 63, "virtual trees of depth 3 with <= 6 nodes", "thorough")
@@ -506,6 +543,19 @@ func propSpecs() map[string]*PropSpec {
 	}
 	for f, nm := range []string{"indented code", "fenced code", "an ATX heading", "a block quote", "a paragraph"} {
 		cm(c06, "H_C06_loose", int64(f), 0, "tight/loose: two-item list whose first item starts with "+nm+"; blank line between items and second block in the item are solver variables", "quick")
+	}
+	for ctx, nm := range []string{"double-quoted inline link title", "single-quoted definition title", "parenthesised image title", "link text", "info string of a tilde fence", "emphasis content", "ATX heading content", "<...> link destination"} {
+		for k := int64(1); k <= 3; k++ {
+			tier := "quick"
+			if ctx == 7 && k == 3 {
+				tier = "thorough"
+			}
+			cm(c06, "H_C06_esc_ctx", k, int64(ctx), fmt.Sprintf("%d arbitrary backslash-escaped ASCII punctuation bytes in a %s", k, nm), tier)
+		}
+		cm(c06, "H_C06_esc_ctx", 4, int64(ctx), "4 arbitrary backslash-escaped ASCII punctuation bytes in a "+nm, "thorough")
+	}
+	for f, nm := range []string{"top level", "'> '", "'>'", "'- ' list item", "'1. ' list item", "' > '"} {
+		cm(c06, "H_C06_markertab", int64(f), 0, "tab between a list marker ('-' or '7.') and the item content behind "+nm+": content offset from the absolute tab stop; second line at the offset or one column short", "quick")
 	}
 	for f, nm := range []string{"an ATX heading", "a thematic break", "an empty fenced code block", "a fenced code block", "a paragraph", "a setext heading"} {
 		cm(c06, "H_C06_loose_nested", int64(f), 0, "tight/loose across nesting levels: outer two-item list, nested one-item list holding a paragraph and "+nm+"; blank line inside the nested item and between the outer items are solver variables", "quick")
@@ -533,6 +583,9 @@ func propSpecs() map[string]*PropSpec {
 	}
 	for d := int64(0); d < 6; d++ {
 		cm(c19, "H_C19_reentrant", d, 0, fmt.Sprintf("document %d: a walk and a render nested inside a callback of another walk / render of the same tree (after an aborted walk), nesting point solver-chosen", d), "quick")
+	}
+	for i := int64(0); i < 6; i++ {
+		fm(c19, "H_C19_format_fault", i, 24, fmt.Sprintf("fixed document %d: Format healthy, Format into a writer failing at call k in 1..24, Format healthy again (frozen tree); the third equals the first", i), "quick")
 	}
 	cm(c19, "H_C19_parse_refs", 0, 0, "Parse of two documents with reference definitions and uses (label letters free) with frozen globals", "quick")
 	cm(c19, "H_C19_parse", 1, 1, "Parse(in2), Parse(in1), Parse(in2) with frozen globals, |in1|=|in2|=1", "quick")
